@@ -1,6 +1,7 @@
 package wire
 
 import (
+	"encoding/binary"
 	"errors"
 	"fmt"
 
@@ -44,7 +45,63 @@ func decodeValue(tm *pgtype.Map, typed *pgtype.Type, format FormatCode, value []
 		}
 	}()
 
+	if format == BinaryFormat {
+		err = checkElementCount(typed.Codec, value)
+		if err != nil {
+			return nil, err
+		}
+	}
+
 	return typed.Codec.DecodeValue(tm, typed.OID, int16(format), value)
+}
+
+// checkElementCount guards the container codecs which allocate room for all
+// announced elements ahead of reading them. The binary representation of an
+// array or multirange announces its number of elements within its header, a
+// value of a few bytes announcing billions of elements would make the server
+// allocate gigabytes of memory. Every element takes up at least the four bytes
+// of its own length, a value announcing more elements than it could hold is
+// therefore rejected.
+func checkElementCount(codec pgtype.Codec, value []byte) error {
+	elements := int64(1)
+
+	switch codec.(type) {
+	case *pgtype.ArrayCodec:
+		// NOTE: 32-bit number of dimensions, flags and element oid followed
+		// by the 32-bit length and lower bound of each dimension.
+		if len(value) < 12 {
+			return nil
+		}
+
+		dimensions := int64(int32(binary.BigEndian.Uint32(value)))
+		if dimensions < 0 || dimensions > int64(len(value)-12)/8 {
+			return fmt.Errorf("unexpected number of array dimensions: %d", dimensions)
+		}
+
+		for index := int64(0); index < dimensions; index++ {
+			length := int64(int32(binary.BigEndian.Uint32(value[12+index*8:])))
+			if length < 0 {
+				return fmt.Errorf("unexpected array dimension length: %d", length)
+			}
+
+			elements *= length
+			if elements > int64(len(value))/4 {
+				return fmt.Errorf("unexpected array dimensions, the announced elements exceed the given value of %d bytes", len(value))
+			}
+		}
+	case *pgtype.MultirangeCodec:
+		// NOTE: 32-bit number of ranges followed by the ranges.
+		if len(value) < 4 {
+			return nil
+		}
+
+		elements = int64(binary.BigEndian.Uint32(value))
+		if elements > int64(len(value))/4 {
+			return fmt.Errorf("unexpected number of ranges, the announced ranges exceed the given value of %d bytes", len(value))
+		}
+	}
+
+	return nil
 }
 
 func (p Parameter) Format() FormatCode {
